@@ -5,7 +5,7 @@
    schedule.  The theorems hold for every number of workers, every job list and EVERY schedule.
    Property theorems only: each is closed by `exact <lemma>`. *)
 From Coq Require Import Permutation.
-From AD Require Import Bytes Outcome Gen Config ConfigProofs Multi MultiProofs.
+From AD Require Import Bytes Outcome Gen Config ConfigProofs Multi MultiProofs MultiFiles.
 
 Section C11.
   Variable state job : Type.
@@ -58,6 +58,16 @@ Section C11.
   Proof. exact (parallel_totals_serial state job effect). Qed.
 End C11.
 
+(* the hypothesis of C11_parallel_equals_serial discharged for the jobs the tool has: the tree as the list of its files, job j =
+   one byte-level handler (ANY function of the file's bytes) applied to file j, reading and writing that entry only.  Jobs on
+   different files commute, hence for every handler, worker count, list of distinct jobs and schedule the files end up as after
+   the serial run and every file gets the serial run's result *)
+Theorem C11_files_parallel_equals_serial : forall h n jobs t0 es s,
+  NoDup jobs -> run (list bytes) nat (file_effect h) (init (list bytes) nat n jobs t0) es = Some s -> terminal (list bytes) nat s ->
+  tree (list bytes) nat s = fst (serial (list bytes) nat (file_effect h) jobs t0) /\
+  Permutation (finished (list bytes) nat s) (snd (serial (list bytes) nat (file_effect h) jobs t0)).
+Proof. exact files_parallel_equals_serial. Qed.
+
 (* non-vacuity: three jobs, two workers, an interleaved schedule runs to completion *)
 Example C11_example :
   multi_replay 2 3 [Recv 0; Recv 1; Finish 1; Recv 1; Finish 0; Finish 1; Recv 0; Recv 1]%nat = Some (true, [1; 0; 2]%nat, 2%nat, 3).
@@ -76,3 +86,4 @@ Print Assumptions C11_totals.
 Print Assumptions C11_totals_as_serial.
 Print Assumptions C11_example.
 Print Assumptions C11_tmp_test_before_stat.
+Print Assumptions C11_files_parallel_equals_serial.
